@@ -61,7 +61,12 @@ func racePass() int {
 			<-start
 			for r := 0; r < rounds; r++ {
 				for k := range jobs {
+					// even rotations: every goroutine walks the pipelines from another start; odd rotations: all of them walk the
+					// same sequence, so that whatever is built on first use is first used by all of them at once
 					i := (k*7 + g*13 + r + rot*5) % len(jobs)
+					if rot%2 == 1 {
+						i = (k*7 + r + rot*5) % len(jobs)
+					}
 					outs[g] = append(outs[g], obs{i, core.Hash(c11Pipeline(nil, jobs[i], c11Full))})
 				}
 			}
@@ -98,9 +103,9 @@ func runRacePass(c *core.Ctx) {
 		c.Note("race pass skipped: no -race binary (VERIF_RACE_BIN unset)")
 		return
 	}
-	runs := 4
+	runs := 8
 	if c.Thorough() {
-		runs = 16
+		runs = 24
 	}
 	// one run of the -race binary is one long item: the wall watchdog of ordinary items does not apply (a loaded machine
 	// must not turn a slow run into an alarm)
